@@ -640,19 +640,14 @@ impl PlainDate {
     #[inline]
     pub fn to_plain_year_month(&self) -> TemporalResult<PlainYearMonth> {
         // TODO: Migrate to `PartialYearMonth`
-        let era = self
-            .era()
-            .map(|e| {
-                TinyAsciiStr::<19>::try_from_utf8(e.as_bytes())
-                    .map_err(|e| TemporalError::general(format!("{e}")))
-            })
-            .transpose()?;
+        // NOTE: the record names the calendar of this date and its arithmetic year; era and era year
+        // would pin the first of the month to the era of this day, which starts later in the month
+        // in which an era begins.
         let partial = PartialDate::new()
             .with_year(Some(self.year()))
-            .with_era(era)
-            .with_era_year(self.era_year())
             .with_month(Some(self.month()))
-            .with_month_code(Some(self.month_code()));
+            .with_month_code(Some(self.month_code()))
+            .with_calendar(self.calendar().clone());
         self.calendar()
             .year_month_from_partial(&partial, ArithmeticOverflow::Constrain)
     }
